@@ -127,7 +127,7 @@ class Ctx:
             print(f"KNOWN-FINDING: property={self.prop} {f['id']} [{key}] {f['what']} "
                   f"(seen {h['count']}x this run; e.g. {h['example'][:200]})")
         for v in self.violations:
-            print(f"VIOLATION property={self.prop} replay={v['replay'] or 'artifacts/' + self.prop}  "
+            print(f"VIOLATION property={self.prop} replay={v['replay'] or str(env.ARTIFACTS / self.prop)}  "
                   f"clause={v['clause']} :: {v['what'][:400]}")
         if not self.samples:
             self.samples.append({"note": "no sample recorded"})
